@@ -4,6 +4,7 @@ import (
 	"encoding/json"
 	"fmt"
 	"regexp"
+	"sort"
 	"strings"
 
 	"github.com/influxdata/influxql"
@@ -40,7 +41,8 @@ type c03Case struct {
 	Ops    []int `json:"ops"`     // indices into c03ops
 	ParenI int   `json:"paren_i"` // parenthesised operand range [ParenI, ParenJ]; -1 = none
 	ParenJ int   `json:"paren_j"`
-	Neg    []int `json:"neg"` // negated operand indices (never a regex operand)
+	Paren2 []int `json:"paren2,omitempty"` // a second group [i, j], disjoint from or nested inside the first
+	Neg    []int `json:"neg"`              // negated operand indices (never a regex operand)
 }
 
 type c03tok struct {
@@ -66,13 +68,17 @@ func c03build(c c03Case) (text string, toks []c03tok) {
 			b.WriteString(" " + o.text + " ")
 			toks = append(toks, c03tok{kind: "op", op: c.Ops[i-1], text: o.text})
 		}
-		if i == c.ParenI {
-			// a negated group: -( … )
-			if neg[-1-i] {
+		// open every group that starts at this operand, outermost first; only the first group can carry a minus
+		for _, g := range c03groups(c) {
+			if g[0] != i {
+				continue
+			}
+			isFirst := g[2] == 1
+			if isFirst && neg[-1-i] {
 				b.WriteString("-")
 			}
 			b.WriteString("(")
-			toks = append(toks, c03tok{kind: "(", text: "(", op: b2i(neg[-1-i])})
+			toks = append(toks, c03tok{kind: "(", text: "(", op: b2i(isFirst && neg[-1-i])})
 		}
 		isRegex := i > 0 && c03ops[c.Ops[i-1]].regex
 		var e influxql.Expr
@@ -91,12 +97,32 @@ func c03build(c c03Case) (text string, toks []c03tok) {
 		}
 		b.WriteString(t)
 		toks = append(toks, c03tok{kind: "opnd", expr: e, text: t})
-		if i == c.ParenJ {
-			b.WriteString(")")
-			toks = append(toks, c03tok{kind: ")", text: ")"})
+		for _, g := range c03groups(c) {
+			if g[1] == i {
+				b.WriteString(")")
+				toks = append(toks, c03tok{kind: ")", text: ")"})
+			}
 		}
 	}
 	return b.String(), toks
+}
+
+// c03groups lists the parenthesised groups as (start, end, isFirst), outermost first among those that start together.
+func c03groups(c c03Case) [][3]int {
+	var gs [][3]int
+	if c.ParenI >= 0 {
+		gs = append(gs, [3]int{c.ParenI, c.ParenJ, 1})
+	}
+	for k := 0; k+1 < len(c.Paren2); k += 2 {
+		gs = append(gs, [3]int{c.Paren2[k], c.Paren2[k+1], 0})
+	}
+	sort.SliceStable(gs, func(a, b int) bool {
+		if gs[a][0] != gs[b][0] {
+			return gs[a][0] < gs[b][0]
+		}
+		return gs[a][1] > gs[b][1]
+	})
+	return gs
 }
 
 // reference precedence climbing
@@ -289,6 +315,24 @@ func c03run(r *ev.Run) {
 					}
 				}
 				rec(0, nil)
+			}
+			// two groups (disjoint, or one strictly inside the other) and an outer group around two disjoint inner groups
+			gs := parens[1:]
+			for _, p := range gs {
+				for _, q := range gs {
+					disjoint := q.i > p.j
+					inside := q.i >= p.i && q.j <= p.j && (q.i > p.i || q.j < p.j)
+					if disjoint || inside {
+						run(c03Case{Ops: ops, ParenI: p.i, ParenJ: p.j, Paren2: []int{q.i, q.j}})
+					}
+					if disjoint {
+						for _, o := range gs {
+							if o.i <= p.i && o.j >= q.j && !(o.i == p.i && o.j == p.j) && !(o.i == q.i && o.j == q.j) {
+								run(c03Case{Ops: ops, ParenI: o.i, ParenJ: o.j, Paren2: []int{p.i, p.j, q.i, q.j}})
+							}
+						}
+					}
+				}
 			}
 		})
 	}
